@@ -2,7 +2,7 @@
 (* Stage (1) for C15: TLC enumerates (expression, target set) pairs and     *)
 (* small integer affine systems, and checks the oracle on the model:        *)
 (* Cramer's solution of every regular generated system satisfies it.        *)
-EXTENDS C15_Linear, Json
+EXTENDS C15_Impl, Json
 CONSTANT Tier
 VARIABLES tree, tgt, sys
 
@@ -78,8 +78,16 @@ CramerOK ==
             sol == << [name |-> "x", e |-> xs], [name |-> "y", e |-> ys] >>
         IN \A i \in 1..2 : REq(NF(SubstVars(Lhs(sys[i]), sol)), NF(SubstVars(Rhs(sys[i]), sol))) = "EQ"
 
+\* design-level check: the transcribed collector against the M-layer clauses (JudgeCoeffs)
+CollectOnModel ==
+    LET names == SeqToSet(tgt) all == tgt = << "ALL" >> IN
+    IF ~Covered(tree, names, all) THEN "SKIP"
+    ELSE JudgeCoeffs(tree, names, all, CollectImpl(tree, names, all))
 Emit ==
-    /\ (tgt # Unset /\ tgt # << "SYS" >>) => PrintT(ToJson([kind |-> "coeff", e |-> tree, tgt |-> tgt]))
+    /\ (tgt # Unset /\ tgt # << "SYS" >>) =>
+          /\ PrintT(ToJson([kind |-> "coeff", e |-> tree, tgt |-> tgt]))
+          /\ (CollectOnModel \in {"OK", "SKIP"}
+              \/ PrintT(ToJson([design |-> CollectOnModel, de |-> tree, dtgt |-> tgt])))
     /\ (tgt = << "SYS" >> /\ Len(sys) \in (IF Tier = "quick" THEN {2} ELSE {1, 2})) =>
            PrintT(ToJson([kind |-> "solve", eqs |-> sys,
                           exprs |-> [i \in 1..Len(sys) |-> [lhs |-> Lhs(sys[i]), rhs |-> Rhs(sys[i])]]]))
